@@ -10,7 +10,9 @@ driver can evaluate them on every environment / document the harness sends).
 * `nodupKeys`    : a JSON document has no repeated key in any object (what `json.loads` produces).
 * `FieldDef.optional` : the field may be left out of a document (nullable, or carries a default).
 * `noCatchAllTrees` : no enumerated-subtypes root of the environment is declared with a catch-all (`*`).
-* `noDefaultedTrees`, `visibleTagsPublic` : the two other hypotheses of `decode_sound_partial`.
+* `visibleTagsPublic` : the other hypothesis of `decode_sound_partial`.
+* `noDefaultedTrees` : formerly a third hypothesis; true of every environment since `StructTree.has_default()`
+                   is `False` (`DecL.noDefaultedTrees_holds`); kept because the driver still reports it.
 -/
 namespace StoneVerif.Rt
 
@@ -50,9 +52,10 @@ def FieldDef.optional (env : Env) (f : FieldDef) : Bool :=
 def noCatchAllTrees (env : Env) : Bool :=
   env.structs.all fun s => !(s.subtypes.isSome && s.catchAll)
 
-/-- no struct field whose validator is a (non-nullable) `bv.StructTree` has an implicit default, i.e. every
-enumerated-subtypes root used as a field type has at least one required field (otherwise the decoder fills an
-absent member with an instance of the root class itself, which is not a value of any leaf) -/
+/-- no struct field whose validator is a (non-nullable) `bv.StructTree` has an implicit default. Before the repair
+of `StructTree.has_default()` this excluded enumerated-subtypes roots without a required field used as a field
+type (the decoder filled an absent member with an instance of the root class itself, which is not a value of any
+leaf); now `hasDefault` is `false` at every non-nullable `.tree`, so this is `true` of every environment. -/
 def noDefaultedTrees (env : Env) : Bool :=
   env.structs.all fun s => s.allAttrs.all fun f => match f.ty with
     | .tree fl _ => fl.nullable || !hasDefault env f.ty
